@@ -110,16 +110,16 @@ func (w *World) LoadJSON(j *iface.JSONLog, ident int, lo *LoadOpts) (*ipfslog.IP
 				_, _ = ipfslog.NewFromJSON(wp.Ctx, wp.Store.API(), wp.Idents[0], pl.ToJSONLog(), wp.LogOpts(wp.LogID), w.sharedFetch)
 			}
 		}
-		w.sharedFetch.Length, w.sharedFetch.Concurrency, w.sharedFetch.Timeout, w.sharedFetch.ProgressChan = lo.length(), lo.Concurrency, dur(lo.TimeoutMs), lo.Progress
+		w.sharedFetch.Length, w.sharedFetch.Concurrency, w.sharedFetch.Timeout, w.sharedFetch.ProgressChan, w.sharedFetch.ShouldExclude = lo.length(), lo.Concurrency, dur(lo.TimeoutMs), lo.Progress, lo.ShouldExcl
 		return ipfslog.NewFromJSON(w.Ctx, w.Store.API(), w.Idents[ident], j, w.loaderOpts(), w.sharedFetch)
 	}
 	return ipfslog.NewFromJSON(w.Ctx, w.Store.API(), w.Idents[ident], j, w.loaderOpts(),
-		&entry.FetchOptions{Length: lo.length(), Concurrency: lo.Concurrency, Timeout: dur(lo.TimeoutMs), ProgressChan: lo.Progress})
+		&entry.FetchOptions{Length: lo.length(), Concurrency: lo.Concurrency, Timeout: dur(lo.TimeoutMs), ProgressChan: lo.Progress, ShouldExclude: lo.ShouldExcl})
 }
 
 func (w *World) LoadEntries(heads []iface.IPFSLogEntry, ident int, lo *LoadOpts) (*ipfslog.IPFSLog, error) {
 	return ipfslog.NewFromEntry(w.Ctx, w.Store.API(), w.Idents[ident], append([]iface.IPFSLogEntry(nil), heads...), w.loaderOpts(),
-		&entry.FetchOptions{Length: lo.length(), Concurrency: lo.Concurrency, Exclude: lo.Exclude, Timeout: dur(lo.TimeoutMs), ProgressChan: lo.Progress})
+		&entry.FetchOptions{Length: lo.length(), Concurrency: lo.Concurrency, Exclude: lo.Exclude, Timeout: dur(lo.TimeoutMs), ProgressChan: lo.Progress, ShouldExclude: lo.ShouldExcl})
 }
 
 func (w *World) LoadHash(c cid.Cid, ident int, lo *LoadOpts) (*ipfslog.IPFSLog, error) {
